@@ -261,7 +261,7 @@ func joinOrDash(l []string, sep string) string {
 // reduce renders the abstract snapshot: the tokens after `snap` of the Lean monitor's input line.
 func (sn *snapshot) reduce(invalid []string) []string {
 	var ls []string
-	for _, l := range sn.listeners {
+	for _, l := range sn.allListeners() {
 		parts := []string{encAtom(l.Name), encAtoms(listenerAddrs(l))}
 		for _, fc := range allChains(l) {
 			parts = append(parts, encAtom(chainKey(l, fc))+"!"+encAtoms(chainRds(fc)))
@@ -296,52 +296,85 @@ type allValidator interface{ ValidateAll() error }
 
 // pgv validates a message and, recursively, every Any inside it whose type is linked in.
 // It returns a canonical reason ("" = valid).
-func pgv(m proto.Message) (reason string) {
+// anySkipped counts the Any values met by pgv whose type is not linked into the binary (not judged).
+var anySkipped int
+
+// pgv returns EVERY canonical reason for which the API's generated validation rejects the message or a message
+// packed in an Any inside it (empty = valid), in the order found.
+func pgv(m proto.Message) (reasons []string) {
 	defer func() {
 		if r := recover(); r != nil {
-			reason = "validate-panic"
+			reasons = append(reasons, "validate-panic")
 		}
 	}()
-	if v, ok := m.(allValidator); ok {
-		if err := v.ValidateAll(); err != nil {
-			return canonErr(err)
-		}
-	} else if v, ok := m.(validator); ok {
-		if err := v.Validate(); err != nil {
-			return canonErr(err)
+	seen := map[string]bool{}
+	add := func(r string) {
+		if r != "" && !seen[r] {
+			seen[r] = true
+			reasons = append(reasons, r)
 		}
 	}
-	var inner string
+	var err error
+	if v, ok := m.(allValidator); ok {
+		err = v.ValidateAll()
+	} else if v, ok := m.(validator); ok {
+		err = v.Validate()
+	}
+	for _, r := range leafReasons(err, 0) {
+		add(r)
+	}
 	walkAny(m.ProtoReflect(), 0, func(a *anypb.Any) {
-		if inner != "" || a == nil || a.TypeUrl == "" {
+		if a == nil || a.TypeUrl == "" {
 			return
 		}
 		sub, err := a.UnmarshalNew()
 		if err != nil {
-			return // type not linked in (or opaque typed struct): not judged
+			anySkipped++ // type not linked in (or opaque typed struct): not judged
+			return
 		}
-		if r := pgv(sub); r != "" {
-			inner = r
+		for _, r := range pgv(sub) {
+			add(r)
 		}
 	})
-	return inner
+	return reasons
+}
+
+type multiErr interface{ AllErrors() []error }
+type causeErr interface{ Cause() error }
+
+// leafReasons flattens a protoc-gen-validate error (multi errors, embedded-message causes) into its innermost reasons.
+func leafReasons(err error, depth int) []string {
+	if err == nil || depth > 30 {
+		return nil
+	}
+	if me, ok := err.(multiErr); ok {
+		var out []string
+		for _, e := range me.AllErrors() {
+			out = append(out, leafReasons(e, depth+1)...)
+		}
+		return out
+	}
+	if ce, ok := err.(causeErr); ok && ce.Cause() != nil {
+		return leafReasons(ce.Cause(), depth+1)
+	}
+	return []string{canonErr(err)}
 }
 
 func canonErr(err error) string {
 	s := err.Error()
-	// first violation only ...
 	if i := strings.Index(s, ";"); i > 0 {
 		s = s[:i]
 	}
 	if i := strings.Index(s, "\n"); i > 0 {
 		s = s[:i]
 	}
-	// ... and of that the innermost cause: "invalid A.B[3]: embedded message failed validation | caused by: invalid C.D: reason"
+	// the innermost cause: "invalid A.B[3]: embedded message failed validation | caused by: invalid C.D: reason"
 	if i := strings.LastIndex(s, "caused by: "); i >= 0 {
 		s = s[i+len("caused by: "):]
 	}
 	s = strings.TrimPrefix(s, "invalid ")
 	s = reNum.ReplaceAllString(s, "N")
+	s = strings.ReplaceAll(s, ",", "") // the reasons are printed as a comma separated list
 	if len(s) > 90 {
 		s = s[:90]
 	}
@@ -383,9 +416,13 @@ func walkAny(m protoreflect.Message, depth int, f func(*anypb.Any)) {
 // canonical reasons (sorted, de-duplicated) for the report.
 func (sn *snapshot) validateAll() (invalid []string, reasons []string) {
 	seen := map[string]bool{}
+	anySkipped = 0
 	add := func(kind, name string, m proto.Message) {
-		if r := pgv(m); r != "" {
+		rs := pgv(m)
+		if len(rs) > 0 {
 			invalid = append(invalid, kind+":"+name)
+		}
+		for _, r := range rs {
 			if !seen[r] {
 				seen[r] = true
 				reasons = append(reasons, r) // in resource order: the first reason belongs to the first invalid resource
@@ -411,6 +448,7 @@ func (sn *snapshot) validateAll() (invalid []string, reasons []string) {
 			reasons = append(reasons, "undecodable")
 		}
 	}
+	sn.anySkipped = anySkipped
 	return invalid, reasons
 }
 
